@@ -61,13 +61,46 @@ func p8(b []byte) *byte {
 }
 func p32(b []byte) *uint32 { return (*uint32)(unsafe.Pointer(&b[0])) }
 
+// c11proto: does the routine, called the way this driver calls it, still give the reference result when all its
+// arguments are ordinary heap memory? The driver reaches past the exported API and binds to the internal calling
+// protocol of the assembly routines (argument order, scratch size, which routine prepares what for which); a
+// restructuring of the internals that changes the protocol is not a defect. A routine that fails this probe is not
+// judged by this part (reported as a lost seam); the same code is still covered through the public API (guard-public).
+var c11proto = map[string]bool{}
+
+func c11probe(fn string, n int) bool {
+	if v, ok := c11proto[fmt.Sprintf("%s/%d", fn, n)]; ok {
+		return v
+	}
+	kind, _, bad := c11body(c11icase{fn, "none", "plain", n})
+	ok := kind == "" && bad == ""
+	c11proto[fmt.Sprintf("%s/%d", fn, n)] = ok
+	return ok
+}
+
 func c11ieval(r *vx.R, c c11icase) {
+	if !c11probe(c.Fn, c.N) {
+		r.NotExhaustive("the in-package calling protocol of " + c.Fn + " no longer matches this driver (wrong result or fault on plain heap arguments): routine not judged here")
+		return
+	}
 	r.Eval(1)
+	kind, msg, bad := c11body(c)
+	key2 := fmt.Sprintf("mem:asm:%s:%s-at-%s", c.Fn, c.Arg, c.Side)
+	if kind == "fault" {
+		r.Violation(key2+":fault", fmt.Sprintf("assembly routine %s accessed memory outside its %s argument (n=%d): %s", c.Fn, c.Arg, c.N, msg), c)
+	} else if kind != "" {
+		r.Violation(key2+":panic", msg, c)
+	} else if bad != "" {
+		r.Violation(key2+":result", bad, c)
+	}
+	r.Shape(fmt.Sprintf("%s:%s:%s:%d", c.Fn, c.Arg, c.Side, c.N))
+}
+
+func c11body(c c11icase) (kind, msg, bad string) {
 	key := vx.UnHex("0123456789abcdeffedcba9876543210")
 	ref := sm4ref.New(key)
 	rkb := u32bytes(ref.RK[:])
-	var bad string
-	kind, msg := vx.TryFault(func() {
+	kind, msg = vx.TryFault(func() {
 		switch c.Fn {
 		case "block1", "block2", "block4", "block8", "block16":
 			w := map[string]int{"block1": 1, "block2": 2, "block4": 4, "block8": 8, "block16": 16}[c.Fn]
@@ -150,15 +183,7 @@ func c11ieval(r *vx.R, c c11icase) {
 			}
 		}
 	})
-	key2 := fmt.Sprintf("mem:asm:%s:%s-at-%s", c.Fn, c.Arg, c.Side)
-	if kind == "fault" {
-		r.Violation(key2+":fault", fmt.Sprintf("assembly routine %s accessed memory outside its %s argument (n=%d): %s", c.Fn, c.Arg, c.N, msg), c)
-	} else if kind != "" {
-		r.Violation(key2+":panic", msg, c)
-	} else if bad != "" {
-		r.Violation(key2+":result", bad, c)
-	}
-	r.Shape(fmt.Sprintf("%s:%s:%s:%d", c.Fn, c.Arg, c.Side, c.N))
+	return kind, msg, bad
 }
 
 func TestVX_C11_Asm(t *testing.T) {
